@@ -71,7 +71,7 @@ def header_values(resp, name):
     return [v for k, v in resp["headers"] if k.lower() == name]
 
 
-def parse_responses(wire, methods=(), eof=True):
+def parse_responses(wire, methods=(), eof=True, all_final=False):
     out = []
     pos = 0
     n = len(wire)
@@ -82,7 +82,7 @@ def parse_responses(wire, methods=(), eof=True):
             if r is None:
                 raise WireError(f"incomplete response head at {pos}: {wire[pos:pos+40]!r}")
             status = r["status"]
-            r["interim"] = 100 <= status < 200
+            r["interim"] = 100 <= status < 200 and not all_final
             method = None
             if not r["interim"]:
                 method = methods[mi] if mi < len(methods) else None
@@ -92,10 +92,10 @@ def parse_responses(wire, methods=(), eof=True):
             te = header_values(r, b"transfer-encoding")
             cl = header_values(r, b"content-length")
             r["complete"] = True
-            if r["interim"] or status in (204, 304) or method == "HEAD":
+            if r["interim"] or status in (204, 304) or 100 <= status < 200 or method == "HEAD":
                 r["framing"] = "none"
                 r["body"] = b""
-                if r["interim"] and (te or cl):
+                if 100 <= status < 200 and (te or cl):
                     raise WireError("1xx response with framing headers")
                 if status == 204 and (te or cl):
                     raise WireError("204 response with framing headers")
